@@ -10,6 +10,7 @@ import (
 	"fmt"
 	"io"
 	"os"
+	"runtime"
 	"strconv"
 	"strings"
 	"time"
@@ -348,6 +349,185 @@ func fmtBody(b []byte) string {
 // ---------------------------------------------------------------- dispatcher
 
 // safeOp runs one op line; Go panics of the real code => "panic"; malformed line => "bad-op".
+// ---------------------------------------------------------------- encode / decode halves of the *.rt ops
+
+// rtEncode runs the real encoder of an `X.rt` op and returns exactly the slice the encoder
+// handed out (no copy: the multi-payload ops keep it alive to detect aliasing between the
+// results of successive encoder calls).  ok=false: the encoder reported an error.
+func rtEncode(f []string) (enc []byte, ok bool) {
+	need := func(n int) {
+		if len(f) != n+1 {
+			bad()
+		}
+	}
+	switch f[0] {
+	case "lock.rt":
+		need(5)
+		l := percolator.Lock{Primary: pHex(f[1]), Ts: pU64(f[2]), TTL: pU64(f[3]), Kind: pb.Mutation_Op(pU8(f[4])), MinCommitTs: pU64(f[5])}
+		return percolator.EncodeLock(l), true
+	case "write.rt":
+		need(3)
+		w := percolator.Write{Kind: pb.Mutation_Op(pU8(f[1])), StartTs: pU64(f[2]), ShortValue: pHex(f[3])}
+		return percolator.EncodeWrite(w), true
+	case "man.rt":
+		need(1)
+		framed, err := manifest.VerifWriteEdit(parseEdit(f[1]))
+		return framed, err == nil
+	case "ikey.rt":
+		need(3)
+		return kv.InternalKey(kv.ColumnFamily(pU8(f[1])), pHex(f[2]), pU64(f[3])), true
+	case "kts.rt":
+		need(2)
+		return kv.KeyWithTs(pHex(f[1]), pU64(f[2])), true
+	case "vs.rt":
+		need(3)
+		vs := kv.ValueStruct{Meta: pU8(f[1]), ExpiresAt: pU64(f[2]), Value: pHex(f[3])}
+		buf := make([]byte, vs.EncodedSize())
+		n := vs.EncodeValue(buf)
+		return buf[:n], true
+	case "vp.rt":
+		need(4)
+		p := kv.ValuePtr{Len: pU32(f[1]), Offset: pU32(f[2]), Fid: pU32(f[3]), Bucket: pU32(f[4])}
+		return p.Encode(), true
+	case "hdr.rt":
+		need(4)
+		h := kv.EntryHeader{KeyLen: pU32(f[1]), ValueLen: pU32(f[2]), Meta: pU8(f[3]), ExpiresAt: pU64(f[4])}
+		buf := make([]byte, 40)
+		n := h.Encode(buf)
+		return buf[:n], true
+	case "ent.rt":
+		need(4)
+		e := &kv.Entry{Key: pHex(f[1]), Value: pHex(f[2]), Meta: pU8(f[3]), ExpiresAt: pU64(f[4])}
+		enc, err := kv.EncodeEntry(nil, e)
+		return enc, err == nil
+	case "cmd.rt":
+		need(1)
+		var req pb.RaftCmdRequest
+		if err := proto.Unmarshal(pHex(f[1]), &req); err != nil {
+			bad()
+		}
+		frame, err := command.Encode(&req)
+		return frame, err == nil
+	case "raft.ents.rt":
+		need(2)
+		gid := pU64(f[1])
+		var ents []myraft.Entry
+		for _, body := range bodyList(f[2]) {
+			var e myraft.Entry
+			if err := e.Unmarshal(body); err != nil {
+				bad()
+			}
+			ents = append(ents, e)
+		}
+		enc, err := engine.VerifEncodeRaftEntries(gid, ents)
+		return enc, err == nil
+	case "raft.hs.rt":
+		need(2)
+		var st myraft.HardState
+		if err := st.Unmarshal(pHex(f[2])); err != nil {
+			bad()
+		}
+		enc, err := engine.VerifEncodeRaftHardState(pU64(f[1]), st)
+		return enc, err == nil
+	case "raft.snap.rt":
+		need(2)
+		var sn myraft.Snapshot
+		if err := sn.Unmarshal(pHex(f[2])); err != nil {
+			bad()
+		}
+		enc, err := engine.VerifEncodeRaftSnapshot(pU64(f[1]), sn)
+		return enc, err == nil
+	}
+	bad()
+	return nil, false
+}
+
+// rtDecode decodes b (an exact-capacity private copy) with the decoder of the `X.rt` op name.
+func rtDecode(name string, b []byte) string {
+	switch name {
+	case "lock.rt":
+		return lockDec(b)
+	case "write.rt":
+		return writeDec(b)
+	case "man.rt":
+		e2, err := manifest.VerifReadEdit(b)
+		return manOutcome(e2, err, true)
+	case "ikey.rt":
+		return ikeySplit(b)
+	case "kts.rt":
+		return ktsParse(b)
+	case "vs.rt":
+		return vsDec(b)
+	case "vp.rt":
+		return vpDec(b)
+	case "hdr.rt":
+		return hdrDec(b)
+	case "ent.rt":
+		return entDec(b)
+	case "cmd.rt":
+		dec, isCmd, err := command.Decode(b)
+		if !isCmd {
+			return "nocmd"
+		}
+		if err != nil {
+			return "err"
+		}
+		re, err := proto.Marshal(dec)
+		if err != nil {
+			return "err"
+		}
+		return "cmd:" + hx(re)
+	case "raft.ents.rt":
+		g2, out, err := engine.VerifDecodeRaftEntries(b)
+		if err != nil {
+			return "err"
+		}
+		parts := make([]string, 0, len(out))
+		for i := range out {
+			bb, err := out[i].Marshal()
+			if err != nil {
+				return "err"
+			}
+			parts = append(parts, fmtBody(bb))
+		}
+		list := "-"
+		if len(parts) > 0 {
+			list = strings.Join(parts, ",")
+		}
+		return fmt.Sprintf("ok:%d:%s", g2, list)
+	case "raft.hs.rt":
+		g2, st2, err := engine.VerifDecodeRaftHardState(b)
+		if err != nil {
+			return "err"
+		}
+		bb, err := st2.Marshal()
+		if err != nil {
+			return "err"
+		}
+		return fmt.Sprintf("ok:%d:%s", g2, hx(bb))
+	case "raft.snap.rt":
+		g2, sn2, err := engine.VerifDecodeRaftSnapshot(b)
+		if err != nil {
+			return "err"
+		}
+		bb, err := sn2.Marshal()
+		if err != nil {
+			return "err"
+		}
+		return fmt.Sprintf("ok:%d:%s", g2, hx(bb))
+	}
+	bad()
+	return ""
+}
+
+// heldPayload is an encoder result kept alive across ops (`hold` / `check`).
+type heldPayload struct {
+	name string
+	enc  []byte // the encoder's own slice, never copied
+}
+
+var held = map[string]heldPayload{}
+
 func safeOp(line string) (out string) {
 	defer func() {
 		if r := recover(); r != nil {
@@ -369,6 +549,31 @@ func runOp(line string) string {
 		}
 	}
 	switch f[0] {
+	case "x.reset": // start of a case: forget the held payloads
+		held = map[string]heldPayload{}
+		return "ok"
+	case "hold": // hold SLOT X.rt ARGS...: encode, keep the encoder's slice alive, print its bytes
+		if len(f) < 3 {
+			bad()
+		}
+		enc, ok := rtEncode(f[2:])
+		if !ok {
+			return "err"
+		}
+		held[f[1]] = heldPayload{name: f[2], enc: enc}
+		return hx(enc)
+	case "check": // check SLOT: decode the held payload now, print outcome and its current bytes
+		need(1)
+		h, ok := held[f[1]]
+		if !ok {
+			return "bad-slot"
+		}
+		return rtDecode(h.name, exact(h.enc)) + " " + hx(h.enc)
+	case "gc": // two cycles: the second one empties sync.Pool victim caches
+		need(0)
+		runtime.GC()
+		runtime.GC()
+		return "ok"
 	case "uv.put":
 		need(1)
 		return hx(binary.AppendUvarint(nil, pU64(f[1])))
@@ -393,31 +598,30 @@ func runOp(line string) string {
 		return fmt.Sprintf("ok:%d:%d", v, len(b)-rd.Len())
 
 	case "lock.rt":
-		need(5)
-		l := percolator.Lock{Primary: pHex(f[1]), Ts: pU64(f[2]), TTL: pU64(f[3]), Kind: pb.Mutation_Op(pU8(f[4])), MinCommitTs: pU64(f[5])}
-		enc := percolator.EncodeLock(l)
-		return lockDec(exact(enc)) + " " + hx(enc)
+		enc, ok := rtEncode(f)
+		if !ok {
+			return "err"
+		}
+		return rtDecode(f[0], exact(enc)) + " " + hx(enc)
 	case "lock.dec":
 		need(1)
 		return lockDec(pHex(f[1]))
 	case "write.rt":
-		need(3)
-		w := percolator.Write{Kind: pb.Mutation_Op(pU8(f[1])), StartTs: pU64(f[2]), ShortValue: pHex(f[3])}
-		enc := percolator.EncodeWrite(w)
-		return writeDec(exact(enc)) + " " + hx(enc)
+		enc, ok := rtEncode(f)
+		if !ok {
+			return "err"
+		}
+		return rtDecode(f[0], exact(enc)) + " " + hx(enc)
 	case "write.dec":
 		need(1)
 		return writeDec(pHex(f[1]))
 
 	case "man.rt":
-		need(1)
-		edit := parseEdit(f[1])
-		framed, err := manifest.VerifWriteEdit(edit)
-		if err != nil {
+		enc, ok := rtEncode(f)
+		if !ok {
 			return "err"
 		}
-		e2, err := manifest.VerifReadEdit(exact(framed))
-		return manOutcome(e2, err, true) + " " + hx(framed)
+		return rtDecode(f[0], exact(enc)) + " " + hx(enc)
 	case "man.dec":
 		need(1)
 		e, err := manifest.VerifDecodeEdit(pHex(f[1]))
@@ -428,16 +632,20 @@ func runOp(line string) string {
 		return manOutcome(e, err, true)
 
 	case "ikey.rt":
-		need(3)
-		enc := kv.InternalKey(kv.ColumnFamily(pU8(f[1])), pHex(f[2]), pU64(f[3]))
-		return ikeySplit(exact(enc)) + " " + hx(enc)
+		enc, ok := rtEncode(f)
+		if !ok {
+			return "err"
+		}
+		return rtDecode(f[0], exact(enc)) + " " + hx(enc)
 	case "ikey.split":
 		need(1)
 		return ikeySplit(pHex(f[1]))
 	case "kts.rt":
-		need(2)
-		enc := kv.KeyWithTs(pHex(f[1]), pU64(f[2]))
-		return ktsParse(exact(enc)) + " " + hx(enc)
+		enc, ok := rtEncode(f)
+		if !ok {
+			return "err"
+		}
+		return rtDecode(f[0], exact(enc)) + " " + hx(enc)
 	case "kts.parse":
 		need(1)
 		return ktsParse(pHex(f[1]))
@@ -446,12 +654,11 @@ func runOp(line string) string {
 		return sign(utils.CompareKeys(pHex(f[1]), pHex(f[2])))
 
 	case "vs.rt":
-		need(3)
-		vs := kv.ValueStruct{Meta: pU8(f[1]), ExpiresAt: pU64(f[2]), Value: pHex(f[3])}
-		buf := make([]byte, vs.EncodedSize())
-		n := vs.EncodeValue(buf)
-		enc := buf[:n]
-		return vsDec(exact(enc)) + " " + hx(enc)
+		enc, ok := rtEncode(f)
+		if !ok {
+			return "err"
+		}
+		return rtDecode(f[0], exact(enc)) + " " + hx(enc)
 	case "vs.size":
 		// what arena / skiplist / ART / SST builder do: allocate EncodedSize() bytes, EncodeValue
 		// into them, DecodeValue the whole buffer.
@@ -469,32 +676,30 @@ func runOp(line string) string {
 		need(1)
 		return vsDec(pHex(f[1]))
 	case "vp.rt":
-		need(4)
-		p := kv.ValuePtr{Len: pU32(f[1]), Offset: pU32(f[2]), Fid: pU32(f[3]), Bucket: pU32(f[4])}
-		enc := p.Encode()
-		return vpDec(exact(enc)) + " " + hx(enc)
+		enc, ok := rtEncode(f)
+		if !ok {
+			return "err"
+		}
+		return rtDecode(f[0], exact(enc)) + " " + hx(enc)
 	case "vp.dec":
 		need(1)
 		return vpDec(pHex(f[1]))
 
 	case "hdr.rt":
-		need(4)
-		h := kv.EntryHeader{KeyLen: pU32(f[1]), ValueLen: pU32(f[2]), Meta: pU8(f[3]), ExpiresAt: pU64(f[4])}
-		buf := make([]byte, 40)
-		n := h.Encode(buf)
-		enc := buf[:n]
-		return hdrDec(exact(enc)) + " " + hx(enc)
+		enc, ok := rtEncode(f)
+		if !ok {
+			return "err"
+		}
+		return rtDecode(f[0], exact(enc)) + " " + hx(enc)
 	case "hdr.dec":
 		need(1)
 		return hdrDec(pHex(f[1]))
 	case "ent.rt":
-		need(4)
-		e := &kv.Entry{Key: pHex(f[1]), Value: pHex(f[2]), Meta: pU8(f[3]), ExpiresAt: pU64(f[4])}
-		enc, err := kv.EncodeEntry(nil, e)
-		if err != nil {
+		enc, ok := rtEncode(f)
+		if !ok {
 			return "err"
 		}
-		return entDec(exact(enc)) + " " + hx(enc)
+		return rtDecode(f[0], exact(enc)) + " " + hx(enc)
 	case "ent.dec":
 		need(1)
 		return entDec(pHex(f[1]))
@@ -503,27 +708,11 @@ func runOp(line string) string {
 		return vslDec(pHex(f[1]))
 
 	case "cmd.rt":
-		need(1)
-		var req pb.RaftCmdRequest
-		if err := proto.Unmarshal(pHex(f[1]), &req); err != nil {
-			bad()
-		}
-		frame, err := command.Encode(&req)
-		if err != nil {
+		enc, ok := rtEncode(f)
+		if !ok {
 			return "err"
 		}
-		dec, isCmd, err := command.Decode(exact(frame))
-		if !isCmd {
-			return "nocmd " + hx(frame)
-		}
-		if err != nil {
-			return "err " + hx(frame)
-		}
-		re, err := proto.Marshal(dec)
-		if err != nil {
-			return "err " + hx(frame)
-		}
-		return "cmd:" + hx(re) + " " + hx(frame)
+		return rtDecode(f[0], exact(enc)) + " " + hx(enc)
 	case "cmd.dec":
 		need(1)
 		_, isCmd, _ := command.Decode(pHex(f[1]))
@@ -533,85 +722,31 @@ func runOp(line string) string {
 		return "nocmd"
 
 	case "raft.ents.rt":
-		need(2)
-		gid := pU64(f[1])
-		var ents []myraft.Entry
-		for _, body := range bodyList(f[2]) {
-			var e myraft.Entry
-			if err := e.Unmarshal(body); err != nil {
-				bad()
-			}
-			ents = append(ents, e)
-		}
-		enc, err := engine.VerifEncodeRaftEntries(gid, ents)
-		if err != nil {
+		enc, ok := rtEncode(f)
+		if !ok {
 			return "err"
 		}
-		g2, out, err := engine.VerifDecodeRaftEntries(exact(enc))
-		if err != nil {
-			return "err " + hx(enc)
-		}
-		parts := make([]string, 0, len(out))
-		for i := range out {
-			b, err := out[i].Marshal()
-			if err != nil {
-				return "err " + hx(enc)
-			}
-			parts = append(parts, fmtBody(b))
-		}
-		list := "-"
-		if len(parts) > 0 {
-			list = strings.Join(parts, ",")
-		}
-		return fmt.Sprintf("ok:%d:%s %s", g2, list, hx(enc))
+		return rtDecode(f[0], exact(enc)) + " " + hx(enc)
 	case "raft.ents.dec":
 		need(1)
 		_, _, _ = engine.VerifDecodeRaftEntries(pHex(f[1]))
 		return "nopanic"
 	case "raft.hs.rt":
-		need(2)
-		gid := pU64(f[1])
-		var st myraft.HardState
-		if err := st.Unmarshal(pHex(f[2])); err != nil {
-			bad()
-		}
-		enc, err := engine.VerifEncodeRaftHardState(gid, st)
-		if err != nil {
+		enc, ok := rtEncode(f)
+		if !ok {
 			return "err"
 		}
-		g2, st2, err := engine.VerifDecodeRaftHardState(exact(enc))
-		if err != nil {
-			return "err " + hx(enc)
-		}
-		b, err := st2.Marshal()
-		if err != nil {
-			return "err " + hx(enc)
-		}
-		return fmt.Sprintf("ok:%d:%s %s", g2, hx(b), hx(enc))
+		return rtDecode(f[0], exact(enc)) + " " + hx(enc)
 	case "raft.hs.dec":
 		need(1)
 		_, _, _ = engine.VerifDecodeRaftHardState(pHex(f[1]))
 		return "nopanic"
 	case "raft.snap.rt":
-		need(2)
-		gid := pU64(f[1])
-		var sn myraft.Snapshot
-		if err := sn.Unmarshal(pHex(f[2])); err != nil {
-			bad()
-		}
-		enc, err := engine.VerifEncodeRaftSnapshot(gid, sn)
-		if err != nil {
+		enc, ok := rtEncode(f)
+		if !ok {
 			return "err"
 		}
-		g2, sn2, err := engine.VerifDecodeRaftSnapshot(exact(enc))
-		if err != nil {
-			return "err " + hx(enc)
-		}
-		b, err := sn2.Marshal()
-		if err != nil {
-			return "err " + hx(enc)
-		}
-		return fmt.Sprintf("ok:%d:%s %s", g2, hx(b), hx(enc))
+		return rtDecode(f[0], exact(enc)) + " " + hx(enc)
 	case "raft.snap.dec":
 		need(1)
 		_, _, _ = engine.VerifDecodeRaftSnapshot(pHex(f[1]))
